@@ -11,7 +11,7 @@ THEOREMS = {
             'C03.insert_loops_total', 'C03.merge_slice_total', 'C03.merge_time_total', 'C03.merge_vector_total'],
     'C04': ['C04.subset_lookup_slice_raw', 'C04.subset_lookup_time_raw', 'C04.subset_lookup_vector_raw',
             'C04.subset_slice', 'C04.subset_time4', 'C04.subset_vector', 'C04.simplify_keeps_lookup',
-            'C04.simplify_total', 'C04.subset_slice_total', 'C04.subset_time_total', 'C04.subset_vector_total'],
+            'C04.simplify_total', 'C04.subset_slice_total', 'C04.subset_time_total', 'C04.subset_vector_total', 'C04.subset_time5'],
     'C05': ['C05.split_merge_slice_id', 'C05.split_merge_time_id', 'C05.split_merge_vector_id',
             'C05.canon_class_unique', 'C05.split_merge_slice_total', 'C05.split_merge_time_total',
             'C05.split_merge_vector_total'],
